@@ -250,7 +250,6 @@ Proof.
       * specialize (RG c' Hc'). cbn in RG. rewrite Q, lbl_generated_form in H2 by lia. discriminate.
       * exact (gfl_some l (finals w) Q GF).
 Qed.
-Print Assumptions names_ok_from_source.
 
 (* ================================================================================================================== *)
 (* PART 3: the top theorems of C01 with the condition on the source                                                    *)
@@ -300,7 +299,6 @@ Proof.
   destruct (src_names_premises hl hd hs autovars switches ee fc cli_font cli_maxlen src p HP body HB mp tl name glob optimize w code HN HW HE) as [ND NM].
   eapply compiled_scripts_correct_from_source; eassumption.
 Qed.
-Print Assumptions compiled_scripts_correct_src_names.
 
 (* C05 with the same condition: the outputs with -optimize off and on behave alike *)
 Theorem optimize_equiv_src_names
@@ -325,7 +323,6 @@ Proof.
   destruct (src_names_premises hl hd hs autovars switches ee fc cli_font cli_maxlen src p HP body HB mp tl name glob true w code1 HN HW H1) as [_ N1].
   eapply optimize_equiv_from_source; eassumption.
 Qed.
-Print Assumptions optimize_equiv_src_names.
 
 (* ---------- in the whole program's instruction list (ProgramRun.v, theorems 5 and 6) ---------- *)
 Section C01PROG_SRC.
@@ -398,8 +395,6 @@ Proof.
            hl hd hs autovars switches ee fc cli_font cli_maxlen src p optimize mp prog HP HE ND name glob body HS w code HW HC NM).
 Qed.
 End C01PROG_SRC.
-Print Assumptions program_scripts_correct_src_names.
-Print Assumptions program_script_goto_continues_src_names.
 
 (* ================================================================================================================== *)
 (* PART 4: the jump targets of an emitted script                                                                       *)
@@ -641,7 +636,6 @@ Proof.
   destruct (SELF c l K N AR) as [Q|Q]; [|contradiction]. eapply source_labels_in_code; eassumption.
 Qed.
 End C01PROG_SELF.
-Print Assumptions program_self_contained_scripts_correct_src_names.
 
 (* ================================================================================================================== *)
 (* PART 5: examples - the hypotheses are satisfiable; every clause of src_names_ok is needed                           *)
@@ -795,7 +789,6 @@ Example far_generated_name_harmless :
   names_okb (finals (nxw s_far)) (nxcode s_far false) = true.
 Proof. repeat (split; [vm_compute; reflexivity|]). vm_compute; reflexivity. Qed.
 End EXAMPLES.
-Print Assumptions good_compiled_correctly.
 
 (* ================================================================================================================== *)
 (* PART 6: clause 3 from the command configuration                                                                     *)
@@ -893,7 +886,6 @@ Proof.
   unfold reserved_name in R. apply orb_false_elim in R. destruct R as [R R3]. apply orb_false_elim in R. destruct R as [R1 R2].
   unfold is_name. auto.
 Qed.
-Print Assumptions autovar_names_from_config.
 
 (* clauses 1 and 2 alone: labels and gotos *)
 Definition src_labels_ok (name : text) (body : list stmt) : bool :=
@@ -912,7 +904,6 @@ Proof.
   unfold pre_name_ok. destruct (lpre l) as [c'|] eqn:P; [|reflexivity].
   destruct (autovar_names_from_config hl hd hs autovars switches ee fc cli_font cli_maxlen src p HP CFG body HB l c' Hk P) as (-> & -> & ->). reflexivity.
 Qed.
-Print Assumptions src_names_ok_from_labels.
 
 (* C01 with the conditions: the configuration has no AutoVar command called end / return / goto; the author's labels are pairwise
    distinct and the author's gotos name labels of the script or names that are neither the script name nor <name>_<digits> *)
@@ -939,7 +930,6 @@ Proof.
   eapply compiled_scripts_correct_src_names; try eassumption.
   eapply src_names_ok_from_labels; eassumption.
 Qed.
-Print Assumptions compiled_scripts_correct_src_labels.
 
 Example config_examples :
   autovars_ok [(t "checkitem", {| avName := t "VAR_RESULT"; avPos := None |}); (t "specialvar", {| avName := []; avPos := Some 0%Z |})] = true /\
@@ -993,7 +983,6 @@ Proof.
   intros c l K N A. left. exact (gotos_local_spec body GL c l K N A).
 Qed.
 End C01PROG_LOCAL.
-Print Assumptions program_local_goto_scripts_correct.
 
 (* ================================================================================================================== *)
 (* PART 8: the labels of the emitted program, from the source                                                          *)
@@ -1181,7 +1170,6 @@ Proof.
     destruct (emit_tops_labels _ _ _ _ _ _ _ E OKS l Hl) as [Q|Q]; [right; left; exact Q|left; exact Q].
   - right. right. eapply emit_texts_labels. exact Hl.
 Qed.
-Print Assumptions program_labels_from_source.
 
 Section C01PROG_SOURCE.
 Variable St : Type.
@@ -1214,7 +1202,6 @@ Proof.
   intros X. apply Q. exact (program_labels_from_source hl hd hs autovars switches ee fc cli_font cli_maxlen src p optimize mp prog HP HE l X).
 Qed.
 End C01PROG_SOURCE.
-Print Assumptions program_self_contained_scripts_correct_source.
 
 (* a program of two scripts, a movement and a text; script A leaves with goto(Elsewhere), a name nothing in the program defines
    (the executable hypotheses; the clause  ~ program_names p "Elsewhere"  is read off the three lists below and the script names) *)
@@ -1244,10 +1231,3 @@ Proof.
 Qed.
 End EXAMPLE_SOURCE.
 
-Print Assumptions src_names_ok_spec.
-Print Assumptions generated_form_spec.
-Print Assumptions lbl_generated_form.
-Print Assumptions generated_targets_defined.
-Print Assumptions source_labels_in_code.
-Print Assumptions jump_targets_from_source.
-Print Assumptions program_local_goto_scripts_correct.
